@@ -207,6 +207,12 @@ func (t *TransientData) CompareAndSetTTL(key string, old, value interface{}, ttl
 		return false
 	}
 
+	if found && reflect.DeepEqual(prev, value) {
+		// The value is unchanged, only the TTL is updated.
+		t.updateTTL(key, value, ttl)
+		return true
+	}
+
 	t.doSet(key, value, prev, ttl)
 	return true
 }
